@@ -3,7 +3,7 @@ import importlib
 
 MODULES = ["jobs_coeffs", "jobs_vec", "jobs_rot", "jobs_conv", "jobs_q120", "jobs_reim4", "jobs_static"]
 
-CLAIMED = ["C05", "C07", "C08", "C09", "C10", "C12", "C13", "C14", "C15", "C17", "C11", "C18"]
+CLAIMED = ["C04", "C05", "C07", "C08", "C09", "C10", "C12", "C13", "C14", "C15", "C17", "C11", "C18"]
 LEVEL = {"C12": "other", "C15": "other"}
 EXPLAIN = {
     "C12": "Contracts cannot quantify over schedules. Decided here: the PREMISES of the standard non-interference argument. (1) proof: in the "
